@@ -36,8 +36,26 @@ Proof.
   split; [apply S|apply (C (IRem a))].
 Qed.
 
-(* A cyclic world terminates in the model with small fuel (non-vacuity and a
-   concrete termination witness; the general termination argument is in DESIGN.md). *)
+(* Termination: for a world whose reachable artifacts and registry requests lie
+   in a finite universe (U, G) closed under reported dependencies, relative
+   resolution and registry resolution - cycles, diamonds and self references
+   included - the queue-draining loop returns as soon as its fuel exceeds an
+   explicit measure of the state, i.e. it never runs out of fuel. *)
+Theorem C14_drain_terminates :
+  forall w U G, universe_closed w U G ->
+  forall fuel phase st ds, sinv w (uroots U G) st -> mu w U phase st < fuel ->
+  exists res, drain fuel w phase st ds = Some res.
+Proof. exact drain_terminates. Qed.
+
+(* the measure is bounded by the queue lengths plus a constant of the universe *)
+Theorem C14_measure_bound :
+  forall w U phase st, mu w U phase st <= 2 * (weight st + total_cost w U) + 1.
+Proof.
+  intros w U phase st. unfold mu. pose proof (todo_le_total w U (analyzed st)).
+  pose proof (switching_le phase st). lia.
+Qed.
+
+(* A cyclic world: concrete instance (non-vacuity). *)
 Example C14_cycle_terminates :
   let w := {| w_fetch := fun p => Some (0%N, None);
               w_versions := fun _ => None; w_source := fun _ _ => None;
@@ -47,6 +65,8 @@ Example C14_cycle_terminates :
   forallb ok_outcome outs = true /\ length (analyzed st) = 2 /\ length (fetch_log st) = 2.
 Proof. vm_compute. repeat split. Qed.
 
+Print Assumptions C14_drain_terminates.
+Print Assumptions C14_measure_bound.
 Print Assumptions C14_analyse_once.
 Print Assumptions C14_fetch_once.
 Print Assumptions C14_exactly_the_reachable_set.
